@@ -211,7 +211,7 @@ def rule_population_mean(ctx):
     fq = FS + 'write_vcf_block'
     f = ctx.func(fq)
     means = [n for n in ast.walk(f.node) if isinstance(n, ast.Call) and ast.unparse(n.func) in ('np.mean', 'np.nanmean', 'numpy.mean', 'numpy.nanmean')
-             and n.args and ast.unparse(n.args[0]) == 'allele_freq']
+             and any(k.arg == 'axis' and ast.unparse(k.value) == '1' for k in n.keywords)]      # the means over the samples
     ctx.need(len(means) >= 2, f"{fq}: the mean allele frequencies (threshold and ordering) were not found")
     for k, n in enumerate(means, 1):
         ctx.check(ast.unparse(n.func).endswith('nanmean'), 'R19.2/population-mean', f.construct(f"mean frequency #{k}"), "mean over the samples with coverage",
